@@ -1456,6 +1456,18 @@ class Interp:
             return collections.Counter(list(self._iterate(args[0])) if args and not isinstance(args[0], dict) else (args[0] if args else ()))  # a multiset of hashable values (pure data)
         if name in ("functools.partial", "partial") and args:
             return Partial(args[0], list(args[1:]), dict(kwargs))
+        if name in ("builtins.compile", "compile") and args and isinstance(args[0], str):
+            import ast as _ast
+
+            flags_ = kwargs.get("flags", args[3] if len(args) > 3 else 0)
+            flags_ = _ast.PyCF_ONLY_AST if isinstance(flags_, (ExtRef, Sym)) else flags_
+            if not isinstance(flags_, int) or not flags_ & _ast.PyCF_ONLY_AST:
+                raise AnalysisError("compile() to a code object not modelled (only parsing to a syntax tree is: nothing is executed)")
+            try:
+                return compile(args[0], kwargs.get("filename", args[1] if len(args) > 1 else ""), kwargs.get("mode", args[2] if len(args) > 2 else "exec"),
+                               flags=flags_, optimize=kwargs.get("optimize", -1) if isinstance(kwargs.get("optimize", -1), int) else -1)
+            except (SyntaxError, ValueError, TypeError, UnicodeError, MemoryError, RecursionError) as ex:
+                raise Raised(type(ex).__name__) from None
         if short == "suppress":
             return None
         raise AnalysisError(f"external call `{name}` not modelled by the abstract evaluator" + (f" (`{unparse(site)[:60]}`)" if site is not None else ""))
